@@ -332,8 +332,12 @@ Proof.
       assert (R : run S B ops c b = v) by (vm_compute; reflexivity); rewrite R
   end.
   cbv beta iota.
-  destruct (cache_refines_map plain_inst plain_spec plain_laws AL AL_laws _ _ _ _ _ _ (inv_empty _ _ _)
-              ltac:(apply plain_wf_run; plain_ok) R) as (I1 & _ & _).
+  match type of R with
+  | run _ _ ?ops ?c ?b = (?c', ?b', ?xs) =>
+      assert (W : wf_run plain_inst AL plain_spec ops c b) by (apply plain_wf_run; plain_ok);
+      destruct (cache_refines_map plain_inst plain_spec plain_laws AL AL_laws ops c b c' b' xs (inv_empty _ _ _) W R)
+        as (I1 & _ & _)
+  end.
   split; [exact I1|]. split; [discriminate|]. split; [discriminate|].
   intros Hs. destruct (Hs id1 vecB true false eq_refl) as [Hd _]. discriminate.
 Qed.
